@@ -578,9 +578,138 @@ fn write_replay(prop: &PropDef, tier: Tier, seed: u64, idx: u64, class: &str, v:
         "min_hash": v.get("min_hash").cloned().unwrap_or(Value::Null),
         "orig_choices_len": v.get("orig_choices_len").cloned().unwrap_or(Value::Null),
         "trace": v.get("trace").cloned().unwrap_or(json!([])),
+        "sequence": v.get("sequence").cloned().unwrap_or(Value::Null),
+        "fresh_hash": v.get("fresh_hash").cloned().unwrap_or(Value::Null),
+        "history_hash": v.get("history_hash").cloned().unwrap_or(Value::Null),
     });
     std::fs::write(&path, serde_json::to_string_pretty(&body).unwrap()).ok();
     path
+}
+
+/// event-log hash of the last of `indices`, all executed one after the other in one fresh
+/// process (`sim seq`)
+fn seq_hash(prop: &PropDef, tier: Tier, seed: u64, indices: &[u64]) -> Option<String> {
+    let exe = std::env::current_exe().ok()?;
+    let list = indices.iter().map(|i| i.to_string()).collect::<Vec<_>>().join(",");
+    let out = Command::new(exe)
+        .arg("seq")
+        .arg(prop.id)
+        .arg(tier.name())
+        .arg(seed.to_string())
+        .arg(list)
+        .stderr(Stdio::null())
+        .output()
+        .ok()?;
+    String::from_utf8_lossy(&out.stdout)
+        .lines()
+        .find_map(|l| l.strip_prefix("HASH ").map(|h| h.trim().to_string()))
+}
+
+fn seq_main(args: &[String]) -> i32 {
+    let prop = find_prop(&args[0]);
+    let tier = Tier::parse(&args[1]);
+    let seed: u64 = args[2].parse().unwrap_or(DEFAULT_SEED);
+    std::panic::set_hook(Box::new(|_| {}));
+    let mut last = String::new();
+    for idx in args[3].split(',').filter_map(|t| t.parse::<u64>().ok()) {
+        let (_, sim) = execute(&prop, tier, ChoiceStream::search(run_seed(seed, &prop, idx)));
+        last = format!("{:016x}", sim.hash);
+    }
+    println!("HASH {}", last);
+    0
+}
+
+/// A run whose event log differed between two worker processes.  Executed alone in a fresh
+/// process (twice) it gives the reference hash; the worker whose hash differs had executed
+/// other runs before it, and that history is minimised to a short sequence of runs which,
+/// executed in one process, changes the outcome of the last one.
+fn triage_mismatch(
+    prop: &PropDef,
+    tier: Tier,
+    seed: u64,
+    idx: u64,
+    h1: &str,
+    h2: &str,
+    stride1: u64,
+    stride2: u64,
+) -> Option<(u64, String, String, Value)> {
+    let a1 = seq_hash(prop, tier, seed, &[idx])?;
+    let a2 = seq_hash(prop, tier, seed, &[idx])?;
+    if a1 != a2 {
+        let detail = format!(
+            "run {} executed alone in two fresh processes gave event-log hashes {} and {}",
+            idx, a1, a2
+        );
+        let v = json!({"violations":[{"class":"C05.fresh_process_runs_differ","key":"","detail":detail}],
+            "choices": Value::Null, "sequence":[idx], "fresh_hash": a1, "history_hash": a2});
+        return Some((idx, "C05.fresh_process_runs_differ".to_string(), detail, v));
+    }
+    let (hist_hash, stride) = if h1 != a1 { (h1, stride1) } else { (h2, stride2) };
+    if hist_hash == a1 {
+        return None;
+    }
+    // the history of that worker: idx - k*stride
+    let mut hist: Vec<u64> = vec![];
+    let mut j = idx;
+    while j >= stride {
+        j -= stride;
+        hist.push(j);
+    }
+    hist.reverse();
+    let differs = |pre: &[u64]| -> bool {
+        let mut l = pre.to_vec();
+        l.push(idx);
+        matches!(seq_hash(prop, tier, seed, &l), Some(h) if h != a1)
+    };
+    let mut cur = hist.clone();
+    if !differs(&cur) {
+        // not reproduced from the run indices alone (e.g. a minimisation inside the worker
+        // left the state behind): report unminimised
+        let detail = format!(
+            "run {} gave event-log hash {} after {} earlier runs in its worker process and {} alone in a fresh process (sequence not reproduced in isolation)",
+            idx, hist_hash, hist.len(), a1
+        );
+        let v = json!({"violations":[{"class":"C05.depends_on_process_history","key":"","detail":detail}],
+            "choices": Value::Null, "sequence": Value::Null, "fresh_hash": a1, "history_hash": hist_hash});
+        return Some((idx, "C05.depends_on_process_history".to_string(), detail, v));
+    }
+    // delta-debug the history: keep halves / drop chunks while the difference persists
+    let mut chunk = (cur.len() + 1) / 2;
+    let mut execs = 0;
+    while chunk >= 1 && execs < 200 {
+        let mut i = 0;
+        let mut progress = false;
+        while i < cur.len() && execs < 200 {
+            let mut t = cur.clone();
+            let end = (i + chunk).min(t.len());
+            t.drain(i..end);
+            execs += 1;
+            if differs(&t) {
+                cur = t;
+                progress = true;
+            } else {
+                i += chunk;
+            }
+        }
+        if chunk == 1 && !progress {
+            break;
+        }
+        if chunk > 1 {
+            chunk = (chunk + 1) / 2;
+        } else if !progress {
+            break;
+        }
+    }
+    let mut seq = cur.clone();
+    seq.push(idx);
+    let hh = seq_hash(prop, tier, seed, &seq).unwrap_or_default();
+    let detail = format!(
+        "identical call not reproducible: run {} gives event-log hash {} alone in a fresh process but {} when runs {:?} were executed before it in the same process ({} earlier runs in the worker where it was seen)",
+        idx, a1, hh, cur, hist.len()
+    );
+    let v = json!({"violations":[{"class":"C05.depends_on_process_history","key":"","detail":detail}],
+        "choices": Value::Null, "sequence": seq, "fresh_hash": a1, "history_hash": hh});
+    Some((idx, "C05.depends_on_process_history".to_string(), detail, v))
 }
 
 /// scratch directories left behind by workers that were killed (watchdog, interrupted run)
@@ -666,14 +795,33 @@ fn run_main(args: &[String]) -> i32 {
     }
     let mut mismatches = 0u64;
     let mut rechecked = 0u64;
+    let mut mismatch_at: Vec<(u64, String, String)> = vec![];
     for r in &batch2.results {
         let idx = r["idx"].as_u64().unwrap();
         if let Some(h) = hash_by_idx.get(&idx) {
             rechecked += 1;
-            if h != r["hash"].as_str().unwrap_or("") {
+            let h2 = r["hash"].as_str().unwrap_or("");
+            if h != h2 {
                 mismatches += 1;
                 eprintln!("determinism mismatch at run {}", idx);
+                mismatch_at.push((idx, h.clone(), h2.to_string()));
             }
+        }
+    }
+    // C05: "repeating an identical call is bit-for-bit reproducible" - the re-execution in
+    // another process, after a different history of earlier runs, is that clause.  A
+    // mismatch is triaged into a replayable sequence of runs.
+    let mut repro_violations: Vec<(u64, String, String, Value)> = vec![];
+    if prop.id == "C05" && !mismatch_at.is_empty() {
+        mismatch_at.sort();
+        for (idx, h1, h2) in mismatch_at.iter().take(2) {
+            if let Some(v) = triage_mismatch(&prop, tier, seed, *idx, h1, h2, workers, w2 * every) {
+                repro_violations.push(v);
+            }
+        }
+        if !repro_violations.is_empty() {
+            // explained as property violations, not as a defect of the harness
+            mismatches = 0;
         }
     }
 
@@ -744,6 +892,10 @@ fn run_main(args: &[String]) -> i32 {
                 new_violations.push((idx, class, detail, r.clone()));
             }
         }
+    }
+    let n_repro = mismatch_at.len() as u64;
+    for v in repro_violations {
+        new_violations.push(v);
     }
     for (idx, how) in &batch.aborted {
         if *idx == u64::MAX {
@@ -827,7 +979,7 @@ fn run_main(args: &[String]) -> i32 {
             "thread_switches": switches,
             "sink_faults_fired": sink,
             "probes": probes,
-            "determinism_recheck": {"runs_reexecuted_in_other_processes": rechecked, "event_log_hash_mismatches": mismatches},
+            "determinism_recheck": {"runs_reexecuted_in_other_processes": rechecked, "event_log_hash_mismatches": mismatches.max(if prop.id == "C05" { n_repro } else { 0 })},
             "known_findings_seen": known_hits.iter().map(|(k,(n,_))| json!({"finding": k, "runs": n})).collect::<Vec<_>>(),
             "violation_classes": by_class,
             "replay_files": replay_paths,
@@ -888,6 +1040,24 @@ fn replay_main(args: &[String]) -> i32 {
     let prop = find_prop(body["property"].as_str().unwrap_or(""));
     let tier = Tier::parse(body["tier"].as_str().unwrap_or("quick"));
     let class = body["class"].as_str().unwrap_or("").to_string();
+    if let Some(seq) = body["sequence"].as_array() {
+        // a process-history violation: the last run of the sequence, alone and after the others
+        let seed = body["seed"].as_u64().unwrap_or(DEFAULT_SEED);
+        let seq: Vec<u64> = seq.iter().filter_map(|v| v.as_u64()).collect();
+        let Some(&last) = seq.last() else { return 2 };
+        let alone = seq_hash(&prop, tier, seed, &[last]).unwrap_or_default();
+        let after = seq_hash(&prop, tier, seed, &seq).unwrap_or_default();
+        println!("run {} alone in a fresh process : event-log hash {}", last, alone);
+        println!("run {} after runs {:?} : event-log hash {}", last, &seq[..seq.len() - 1], after);
+        println!("recorded: fresh {} history {}", body["fresh_hash"], body["history_hash"]);
+        if alone != after || seq.len() == 1 && body["fresh_hash"] != body["history_hash"] {
+            println!("VIOLATION property={} replay={}", prop.id, path);
+            println!("  class={} (reproduced)", class);
+            return 1;
+        }
+        println!("replay did not reproduce class {}", class);
+        return 0;
+    }
     std::panic::set_hook(Box::new(|_| {}));
     let cs = if body["choices"].is_array() {
         ChoiceStream::replay(choices_from_json(&body["choices"]))
@@ -947,6 +1117,7 @@ fn main() {
             0
         }
         "replay" => replay_main(&args[2..]),
+        "seq" => seq_main(&args[2..]),
         "c20-stdout" => {
             // child of a C20 run: replays the given choices with stdout as print target
             std::panic::set_hook(Box::new(|_| {}));
